@@ -319,8 +319,9 @@ def check_potential(rep, F, cls, npar):
     # the argument is compared only with the two domain bounds: one representative per ordering (bounds included)
     REPS = [("below", Q(1, 2), False), ("at-min", Q(1), True), ("inside", Q(2), True), ("at-cutoff", Q(3), True), ("above", Q(4), False)]
 
-    def value_at(fo, rv, what):
+    def value_at(fo, rv, what, case=None):
         sub = {lo: Q(1), hi: Q(3), r: rv}
+        sub.update(case or {})          # parameter values used only to decide guards on the parameters (lam_k == c shortcuts)
         evs = [e for e in fo.events if e["kind"] == "return"]
         hit = []
         for e in evs:
@@ -333,9 +334,23 @@ def check_potential(rep, F, cls, npar):
             raise AnalysisBroken("%s::%s: %d returns are taken for one argument" % (cls, what, len(hit)))
         return hit[0]["value"]
 
-    def piecewise(fo, what, f):
+    def param_cases(fo):
+        """(parameter, constant) pairs the returns are guarded with: lam_k == c / lam_k != c"""
+        from vsa.cases import leaf_conditions
+        out = set()
+        for e in fo.events:
+            if e["kind"] != "return":
+                continue
+            for lf in leaf_conditions(e):
+                if isinstance(lf, tuple) and len(lf) == 3 and lf[0] in ("==", "!="):
+                    for a_, b_ in ((lf[1], lf[2]), (lf[2], lf[1])):
+                        if a_ in lams and getattr(b_, "is_number", False):
+                            out.add((a_, sp.nsimplify(b_)))
+        return sorted(out, key=str)
+
+    def piecewise(fo, what, f, case=None):
         """in-domain value (must be the same expression at every in-domain representative); out-of-domain must be 0"""
-        vals = {nm: value_at(fo, rv, what) for nm, rv, _ in REPS}
+        vals = {nm: value_at(fo, rv, what, case) for nm, rv, _ in REPS}
         inner = vals["inside"]
         for nm, rv, ins in REPS:
             v = vals[nm]
@@ -348,16 +363,28 @@ def check_potential(rep, F, cls, npar):
                 rep.check(is_zero(v), "R7.3", "%s|%s|domain|%s" % (cls, what, nm), "0 outside the domain (%s)" % nm,
                           "%s::%s returns %s %s the domain where CalculateF is 0" % (cls, what, v, nm), f.loc())
         return inner
+    lams = [S("lam%d" % k) for k in range(npar)]
+    generic = {lm: Q(7, 3) + k_ for k_, lm in enumerate(lams)}        # a parameter vector that satisfies none of the lam_k == c shortcuts
     fF, foF = ret("CalculateF", r=r)
     rep.analysed(fF)
-    Fv = piecewise(foF, "F", fF)
-    lams = [S("lam%d" % k) for k in range(npar)]
+    Fv = piecewise(foF, "F", fF, generic)
     for i in range(npar):
         fD, foD = ret("CalculateDF", i=sp.Integer(i), r=r, _0=sp.Integer(i), _1=r)
         rep.analysed(fD)
-        v = piecewise(foD, "DF|%d" % i, fD)
+        v = piecewise(foD, "DF|%d" % i, fD, generic)
         rep.check(is_zero(sp.diff(Fv, lams[i]) - v), "R7.3", "%s|DF|%d" % (cls, i), "dF/dlam%d == DF(%d) = %s" % (i, i, v),
                   "%s::CalculateDF(%d, r) returns %s but dF/dlam%d = %s" % (cls, i, v, i, sp.diff(Fv, lams[i])), fD.loc(), sample=(i < 2))
+        # shortcuts taken for special parameter values (lam_k == c): the value returned there must be the derivative at that parameter value
+        for lk, cval in param_cases(foD) + [pc for pc in param_cases(foF) if pc not in param_cases(foD)]:
+            cs = dict(generic)
+            cs[lk] = cval
+            v_s = value_at(foD, Q(2), "DF|%d" % i, cs)
+            F_s = value_at(foF, Q(2), "F", cs) if param_cases(foF) else Fv
+            want_s = sp.diff(Fv, lams[i]).subs(lk, cval)
+            got_s = v_s.subs(lk, cval) if hasattr(v_s, "subs") else sp.sympify(v_s)
+            rep.check(is_zero(want_s - got_s), "R7.3", "%s|DF|%d|%s=%s" % (cls, i, lk, cval), "dF/dlam%d at %s = %s" % (i, lk, cval),
+                      "%s::CalculateDF(%d, r) returns %s when %s == %s, but dF/dlam%d there is %s: the shortcut for that parameter value is not the derivative of CalculateF"
+                      % (cls, i, got_s, lk, cval, i, want_s), fD.loc())
         for j in range(npar):
             f2, fo2 = ret("CalculateD2F", _0=sp.Integer(i), _1=sp.Integer(j), _2=r, i=sp.Integer(i), j=sp.Integer(j), r=r)
             rep.analysed(f2)
